@@ -24,8 +24,8 @@ ASSUMPTIONS = ["bodies are deterministic, so cached wrappers (alru_cache, acache
 UNIT_TIMEOUT = {"quick": 200, "thorough": 1200}
 
 DECOS = ["asynq", "pure", "proxy", "pair", "proxy_pair", "mad", "mad_pure", "dedup", "dedup_pair", "aretry", "alru", "per_instance"]
-BODIES = ["plain", "gen", "batch", "reenter"]
-NO_REENTER = ("proxy", "proxy_pair")  # their bodies only build a future; nothing runs "inside" them
+BODIES = ["plain", "gen", "batch", "reenter", "result"]
+NO_REENTER = ("proxy", "proxy_pair")  # their bodies only build a future; nothing runs "inside" them (nor hands back a result)
 PATTERNS = [
     ((1, 2), {}),
     ((1,), {"y": 2}),
@@ -125,6 +125,14 @@ def build(deco, body, rt):
             else:
                 def fn(bound, x, y=10, *, z=100):
                     return ("res", tag_of(bound), x, y, z)
+        elif body == "result":
+            # a plain (non-generator) body that hands back its value through the public asynq.result()
+            if kind == "f":
+                def fn(x, y=10, *, z=100):
+                    asynq.result(("res", "none", x, y, z))
+            else:
+                def fn(bound, x, y=10, *, z=100):
+                    asynq.result(("res", tag_of(bound), x, y, z))
         elif body == "gen":
             if kind == "f":
                 def fn(x, y=10, *, z=100):
@@ -330,6 +338,13 @@ def run_cell(deco, body, binding, pat, argvals=None, shared=None):
         v = yield fut_fn()
         return v
 
+    @A()
+    def inside(call):
+        # the request is made synchronously by a task that is running at that moment
+        v = call()
+        yield None
+        return ("outer task finished", v)
+
     nested_kinds = [
         ("sync call", (lambda: c(*full, **kw).value()) if pure else (lambda: c(*full, **kw)), exp if pure else exp_sync),
         (".asynq().value()", (lambda: c(*full, **kw).value()) if pure else (lambda: c.asynq(*full, **kw).value()), exp),
@@ -365,6 +380,12 @@ def run_cell(deco, body, binding, pat, argvals=None, shared=None):
             nconv += conv("sync call", lambda: c(*full, **kw), exp_sync)
             nconv += conv(".asynq().value()", lambda: c.asynq(*full, **kw).value(), exp)
             nconv += conv("yield .asynq()", lambda: yielder(lambda: c.asynq(*full, **kw)), exp)
+        if pure:
+            nconv += conv("call().value() inside a running task", lambda: inside(lambda: c(*full, **kw).value()), ("outer task finished", exp))
+        else:
+            nconv += conv("sync call inside a running task", lambda: inside(lambda: c(*full, **kw)), ("outer task finished", exp_sync))
+            nconv += conv(".asynq().value() inside a running task", lambda: inside(lambda: c.asynq(*full, **kw).value()), ("outer task finished", exp))
+        nconv += conv("async_call() sync inside a running task", lambda: inside(lambda: async_call(c, *full, **kw)), ("outer task finished", exp))
         nconv += conv("async_call.asynq().value()", lambda: async_call.asynq(c, *full, **kw).value(), exp)
         nconv += conv("yield async_call.asynq()", lambda: yielder(lambda: async_call.asynq(c, *full, **kw)), exp)
         nconv += conv("async_call() sync", lambda: async_call(c, *full, **kw), exp)
@@ -466,7 +487,7 @@ def cells():
     out = []
     for deco in DECOS:
         for body in BODIES:
-            if body == "reenter" and deco in NO_REENTER:
+            if body in ("reenter", "result") and deco in NO_REENTER:
                 continue
             for binding in SUPPORTED[deco]:
                 for pi in range(len(PATTERNS)):
@@ -503,7 +524,7 @@ def run_unit(unit, progress):
     allc = cells()
     a, b = unit["cases"]
     if unit["mode"] == "shared_ns":
-        combos = [(d, bd) for d in DECOS for bd in BODIES if not (bd == "reenter" and d in NO_REENTER)]
+        combos = [(d, bd) for d in DECOS for bd in BODIES if not (bd in ("reenter", "result") and d in NO_REENTER)]
         for i in range(a, b):
             progress(i)
             deco, body = combos[i % len(combos)]
